@@ -25,7 +25,12 @@ Fixpoint allocs (m : mem) (vs : list vec) : mem * list cell :=
   | v :: t => let '(m1, c) := alloc1 m v in let '(m2, cs) := allocs m1 t in (m2, c :: cs)
   end.
 
-(* taking vectors over: the very same buffers, or new ones holding the same values *)
+(* taking vectors over: the very same buffers, or new ones holding the same values.
+   NOTE on Copy: one new buffer per SLOT. copy.deepcopy keeps two slots on one new buffer when they hold the very same
+   Python object (its memo) and separates them when they are two views of one buffer; a cell does not distinguish the two.
+   The two readings coincide exactly on slot lists without repetition, i.e. on every world satisfying the invariant `wf`
+   that Proofs_Step proves for all histories - and every theorem about copy assumes `wf`. The driver never builds a
+   repeated slot (it would have to write `m.vertices[i] = m.vertices[j]` itself). *)
 Definition take (md : cmode) (m : mem) (cs : list cell) : mem * list cell :=
   match md with Alias => (m, cs) | Copy => allocs m (map (rd (mheap m)) cs) end.
 (* a producer's choice composed with what RawMeshData._prepare_vertices does to every stored vector *)
@@ -55,13 +60,15 @@ Record corners := mkcorn { fce : list Z; fca : list Z; cce : list Z; cca : list 
 Definition corn0 : corners := mkcorn [] [] [] [] [] [].
 Definition get_corn (c : corners) (k : nat) : list Z :=
   match k with 0%nat => fce c | 1%nat => fca c | 2%nat => cce c | 3%nat => cca c | 4%nat => cfe c | _ => cfa c end.
+(* attributes: (container, name, values for the keys 0, 1, ...) - integer attributes, values of the object *)
+Definition attrs : Type := list (Z * Z * list Z).
 Record obj := mkobj { ocells : list cell; oedges : list (list Z); ofaces : list (list Z); occells : list (list Z);
-                      ocorn : corners; okind : Z }.   (* kind: -1 caller array, 0 point cloud, 1 polyline, 2 surface, 3 volume *)
+                      ocorn : corners; oattr : attrs; okind : Z }.   (* kind: -1 caller array, 0 point cloud, 1 polyline, 2 surface, 3 volume *)
 Record world := mkw { wmem : mem; wobjs : list obj }.
 Definition w0 : world := mkw (mkmem (PositiveMap.empty vec) 1%positive) [].
 
 Definition coords (h : heap) (o : obj) : list vec := map (rd h) (ocells o).
-Definition with_cells (o : obj) (cs : list cell) : obj := mkobj cs (oedges o) (ofaces o) (occells o) (ocorn o) (okind o).
+Definition with_cells (o : obj) (cs : list cell) : obj := mkobj cs (oedges o) (ofaces o) (occells o) (ocorn o) (oattr o) (okind o).
 Definition get_elem (o : obj) (k : nat) : list (list Z) :=
   match k with 0%nat => oedges o | 1%nat => ofaces o | _ => occells o end.
 (* mesh.copy: every container of the copy is filled from the container of the source the code names (Gen.v) *)
@@ -70,7 +77,7 @@ Definition copy_obj (attr : bool) (so : obj) (cs : list cell) : obj :=
   mkobj cs (get_elem so (copy_elem_src attr 0)) (get_elem so (copy_elem_src attr 1)) (get_elem so (copy_elem_src attr 2))
         (mkcorn (get_corn c (copy_corn_src attr 0)) (get_corn c (copy_corn_src attr 1)) (get_corn c (copy_corn_src attr 2))
                 (get_corn c (copy_corn_src attr 3)) (get_corn c (copy_corn_src attr 4)) (get_corn c (copy_corn_src attr 5)))
-        (okind so).
+        (if copy_keeps_attributes attr then oattr so else []) (okind so).
 Fixpoint upd {A} (l : list A) (i : nat) (x : A) : list A :=
   match l, i with
   | [], _ => []
@@ -83,6 +90,12 @@ Definition get_mesh (w : world) (i : nat) : option obj :=
 
 (* ---------------------------------------------------------------- producers *)
 Inductive sinit := IFresh (v : vec) | IShare (o s : nat).
+(* how a result of the library outside the anchors comes about: handed over by the caller as it is (numpy arrays,
+   PointCloud.append: user code), built through RawMeshData.prepare(), or appended vector by vector to a PolyLine() by
+   exporter number p (Gen.append_mode) *)
+Inductive build := ByUser | ByPrepare | ByAppend (p : Z).
+Definition build_mode (b : build) : cmode :=
+  match b with ByUser => Alias | ByPrepare => prepare_vertex_mode | ByAppend p => append_mode p end.
 Fixpoint build_ext (objs : list obj) (m : mem) (pat : list sinit) : option (mem * list cell) :=
   match pat with
   | [] => Some (m, [])
@@ -217,8 +230,8 @@ Definition vsum (vs : list vec) : vec := fold_left (vadd O) vs (vzero O).
 
 (* ---------------------------------------------------------------- operations *)
 Inductive op :=
-| ONew (prep : bool) (pat : list sinit) (e f c : list (list Z)) (cn : corners) (k : Z)
-    (* caller arrays, producers outside the anchors; prep: the result is built through RawMeshData.prepare() *)
+| ONew (how : build) (pat : list sinit) (e f c : list (list Z)) (cn : corners) (at0 : attrs) (k : Z)
+    (* caller arrays, producers outside the anchors *)
 | OFromArrays (a : nat) (e f c : list (list Z)) (cn : corners) (k : Z)
 | ORing (N nc : Z) (open : bool) (vs : list vec) (e f : list (list Z)) (cn : corners)
 | OCopy (m : nat) (attr : bool)
@@ -232,31 +245,64 @@ Inductive op :=
 | OToOrigin (m : nat)
 | OFlatten (m : nat) (dim : nat)
 | OEdit (o s k : nat) (x : T)
-| OSet (m s : nat) (v : vec).
+| OSet (m s : nat) (v : vec)
+| OAttrSet (m : nat) (cont name : Z) (vals : list Z)          (* create / overwrite an attribute *)
+| OAttrEdit (m : nat) (cont name : Z) (k : nat) (x : Z)       (* attribute[k] = x *)
+| OElemEdit (m : nat) (which k : nat) (el : list Z).          (* mesh.<edges|faces|cells>[k] = el *)
 
 Definition push (w : world) (m : mem) (o : obj) : world := mkw m (wobjs w ++ [o]).
+Definition akey (a : Z * Z * list Z) (cont name : Z) : bool := (fst (fst a) =? cont)%Z && (snd (fst a) =? name)%Z.
+Definition attr_set (l : attrs) (cont name : Z) (vals : list Z) : attrs :=
+  filter (fun a => negb (akey a cont name)) l ++ [(cont, name, vals)].
+Definition attr_edit (l : attrs) (cont name : Z) (k : nat) (x : Z) : attrs :=
+  map (fun a => if akey a cont name then (cont, name, upd (snd a) k x) else a) l.
+Definition with_attr (o : obj) (a : attrs) : obj := mkobj (ocells o) (oedges o) (ofaces o) (occells o) (ocorn o) a (okind o).
+Definition with_elem (o : obj) (which k : nat) (el : list Z) : obj :=
+  match which with
+  | 0%nat => mkobj (ocells o) (upd (oedges o) k el) (ofaces o) (occells o) (ocorn o) (oattr o) (okind o)
+  | 1%nat => mkobj (ocells o) (oedges o) (upd (ofaces o) k el) (occells o) (ocorn o) (oattr o) (okind o)
+  | _ => mkobj (ocells o) (oedges o) (ofaces o) (upd (occells o) k el) (ocorn o) (oattr o) (okind o)
+  end.
+(* rotate accepts rotation matrices only (scipy's Rotation.from_matrix orthonormalises anything else) *)
+Definition teq (a b : T) : bool := leb O a b && leb O b a.
+Definition veq (a b : vec) : bool := teq (vx a) (vx b) && teq (vy a) (vy b) && teq (vz a) (vz b).
+Definition mmul (A B : mat (T:=T)) : mat (T:=T) :=
+  let Bt := mtrans B in
+  let '(a1, a2, a3) := A in
+  let '(b1, b2, b3) := Bt in
+  ((dot O a1 b1, dot O a1 b2, dot O a1 b3), (dot O a2 b1, dot O a2 b2, dot O a2 b3), (dot O a3 b1, dot O a3 b2, dot O a3 b3)).
+Definition mid : mat (T:=T) := ((o1 O, z0 O, z0 O), (z0 O, o1 O, z0 O), (z0 O, z0 O, o1 O)).
+Definition det3 (R : mat (T:=T)) : T :=
+  let '(a, b, c) := R in
+  add O (sub O (mul O (vx a) (sub O (mul O (vy b) (vz c)) (mul O (vz b) (vy c))))
+               (mul O (vy a) (sub O (mul O (vx b) (vz c)) (mul O (vz b) (vx c)))))
+        (mul O (vz a) (sub O (mul O (vx b) (vy c)) (mul O (vy b) (vx c)))).
+Definition is_rotation (R : mat (T:=T)) : bool :=
+  let '(r1, r2, r3) := mmul (mtrans R) R in
+  let '(i1, i2, i3) := mid in
+  veq r1 i1 && veq r2 i2 && veq r3 i3 && teq (det3 R) (o1 O).
 Definition retarget (w : world) (i : nat) (o : obj) (r : mem * list cell) : world :=
   mkw (fst r) (upd (wobjs w) i (with_cells o (snd r))).
 
 Definition step (w : world) (o : op) : option world :=
   let m := wmem w in
   match o with
-  | ONew prep pat e f c cn k =>
+  | ONew how pat e f c cn at0 k =>
       match build_ext (wobjs w) m pat with
-      | Some (m1, cs) => let '(m2, cs2) := if prep then take prepare_vertex_mode m1 cs else (m1, cs) in
-                         Some (push w m2 (mkobj cs2 e f c cn k))
+      | Some (m1, cs) => let '(m2, cs2) := take (build_mode how) m1 cs in
+                         Some (push w m2 (mkobj cs2 e f c cn at0 k))
       | None => None
       end
   | OFromArrays a e f c cn k =>
       match nth_error (wobjs w) a with
       | Some ao => if is_mesh ao then None else
                    let '(m1, cs) := take (eff from_arrays_mode) m (ocells ao) in
-                   Some (push w m1 (mkobj cs e f c cn k))
+                   Some (push w m1 (mkobj cs e f c cn [] k))
       | None => None
       end
   | ORing N nc open vs e f cn =>
       match ring_cells m N nc open vs with
-      | Some (m1, cs) => Some (push w m1 (mkobj cs e f [] cn 2))
+      | Some (m1, cs) => Some (push w m1 (mkobj cs e f [] cn [] 2))
       | None => None
       end
   | OCopy i attr =>
@@ -270,7 +316,7 @@ Definition step (w : world) (o : op) : option world :=
       | _ :: _, Some ins =>
           let '(m1, cs) := merge_cells m ins in
           let '(e, f, c) := merge_comb merge_offset0 ins in
-          Some (push w m1 (mkobj cs e f c (merge_corn 0 0 0 ins) (kind_of_data e f c)))
+          Some (push w m1 (mkobj cs e f c (merge_corn 0 0 0 ins) [] (kind_of_data e f c)))
       | _, _ => None
       end
   | OTranslate i t =>
@@ -293,6 +339,7 @@ Definition step (w : world) (o : op) : option world :=
           end
       end
   | ORotate i R orig =>
+      if negb (is_rotation R) then None else
       match get_mesh w i with
       | None => None
       | Some so => match default_orig rotate_default (mheap m) (ocells so) orig with
@@ -352,6 +399,21 @@ Definition step (w : world) (o : op) : option world :=
       | Some so => if (s <? length (ocells so))%nat
                    then let '(m1, c) := alloc1 m v in Some (retarget w i so (m1, upd (ocells so) s c))
                    else None
+      end
+  | OAttrSet i cont name vals =>
+      match get_mesh w i with
+      | Some so => Some (mkw m (upd (wobjs w) i (with_attr so (attr_set (oattr so) cont name vals))))
+      | None => None
+      end
+  | OAttrEdit i cont name k x =>
+      match get_mesh w i with
+      | Some so => Some (mkw m (upd (wobjs w) i (with_attr so (attr_edit (oattr so) cont name k x))))
+      | None => None
+      end
+  | OElemEdit i which k el =>
+      match get_mesh w i with
+      | Some so => Some (mkw m (upd (wobjs w) i (with_elem so which k el)))
+      | None => None
       end
   end.
 
